@@ -277,6 +277,38 @@ def corpus(ctx):
         except Exception as ex:
             ctx.fail(["reread", "raises", errname(ex), "grounded"], "grounded corpus case raised %s: %s" % (errname(ex), str(ex)[:100]), dict(what="corpus grounded-" + how))
 
+    # a save file that already holds many environments is continued by a second save of a superset: every environment reads back as itself
+    ctx.count("corpus", "save-continued")
+    work = tempfile.mkdtemp(prefix="c04s-", dir=os.path.join(VERIF, ".work"))
+    try:
+        path = os.path.join(work, "many.zip")
+        mk = lambda k: coba.Environments.from_linear_synthetic(3, n_actions=2, n_context_features=1, n_action_features=0, seed=1).shuffle(list(range(1, k + 1)))
+        refs = [read_all(e) for e in mk(13)]
+        mk(11).save(path)
+        back = mk(13).save(path)
+        got = [read_all(e) for e in back]
+        key = lambda rows: json.dumps(rows, sort_keys=True, default=str)
+        if len(got) != 13 or sorted(map(key, got)) != sorted(map(key, refs)):
+            bad = [i for i, g in enumerate(got) if key(g) not in set(map(key, refs))]
+            ctx.fail(["reread", "save-continued"], "13 environments saved on top of a file holding 11 of them read back as %d environments; %s" % (len(got), "positions %s are not any of the saved environments" % bad if bad else "some environment is there twice and another is missing"), dict(what="corpus save-continued"))
+    except Exception as ex:
+        ctx.fail(["reread", "raises", errname(ex), "save-continued"], "continuing a save file raised %s: %s" % (errname(ex), str(ex)[:100]), dict(what="corpus save-continued"))
+    finally:
+        shutil.rmtree(work, ignore_errors=True)
+    # reading an environment derived from materialized (held) data leaves the held data as it was
+    ctx.count("corpus", "materialized-parent")
+    try:
+        m = coba.Environments.from_linear_synthetic(6, n_actions=3, n_context_features=1, n_action_features=0, seed=3).logged(RandomLearner(1)).materialize()
+        before = read_all(m[0])
+        for derived in (m.ope_rewards("IPS"), m.ope_rewards([None, "IPS"]), m.sparse(), m.repr("onehot", "onehot"), m.scale("min", "minmax"), m.noise(reward=(0, 1), seed=2)):
+            for e in derived: read_all(e)
+            after = read_all(m[0])
+            if after != before:
+                i = next(i for i, (x, y) in enumerate(zip(before, after)) if x != y)
+                ctx.fail(["reread", "held-data-modified"], "after an environment derived from a materialized one was read, the materialized one reads differently at interaction %d: %r, before %r" % (i, after[i], before[i]), dict(what="corpus materialized-parent")); break
+    except Exception as ex:
+        ctx.fail(["reread", "raises", errname(ex), "materialized-parent"], "raised %s: %s" % (errname(ex), str(ex)[:100]), dict(what="corpus materialized-parent"))
+
 def siblings(ctx, n_cases):
     """several environments built by one Environments call chain: what one of them yields does not depend on whether (or in which order) its siblings were read, nor on pickling"""
     import coba
